@@ -59,6 +59,13 @@ def answer (ws : List String) : Option String :=
   | ["unbindfs", h] => do pure (renderOpt (unbindFS (← str? h)))
   | ["unbinduri", h] => do pure (renderOpt (unbindURI (← str? h)))
   | ["unbind", h] => do pure (renderOpt (unbind (← str? h)))
+  | ["punbind", h] => do pure (renderOpt (unbind (← str? h)))
+  | [op, h] =>
+    -- (*WFN).UnmarshalText / Scan on the zero name: empty input leaves it alone
+    if op == "unmarshal" || op == "scan" || op == "scanstr" then do
+      let s ← str? h
+      pure (if s.isEmpty then renderOpt (some (List.replicate 11 unsetValue)) else renderOpt (unbind s))
+    else none
   | "valid" :: toks => do
     let w ← wfn? toks
     pure (match valid w with | .ok => "ok" | .errUnset => "unset" | .err => "err")
